@@ -291,6 +291,9 @@ class RZipLatest(RNode):
 
 class RSink(RNode):
     def step(self, x, md, who):
+        f = self.p.get("func")
+        if f is not None:
+            f(x)
         return []
 
 
